@@ -40,17 +40,18 @@ X73(b) == [i \in 1..Len(b) |-> b[i] ^^ 115]
 \* table = [current |-> 0..255, sets |-> [1..100 -> set or Empty]]
 \* set = [index, name (bytes), slots |-> [1..14 -> [id |-> w32, glam |-> w32]], facewear |-> w32]
 \* a slot with id <<0,0>> is empty; a set with an empty name is empty
-Rec(body, k) == SubSeq(body, 4 + 452 * (k - 1) + 1, 4 + 452 * k)
+GearRec(body, k) == SubSeq(body, 4 + 452 * (k - 1) + 1, 4 + 452 * k)
 SlotAt(rec, s) == [id |-> SubW(FromLE(rec, 56 + 28 * (s - 1)), Marker), glam |-> FromLE(rec, 60 + 28 * (s - 1))]
 NameOf(rec) == LET nm == SubSeq(rec, 2, 48)
                    z == {i \in 1..47 : nm[i] = 0}
                IN IF z = {} THEN nm ELSE SubSeq(nm, 1, Min(z) - 1)
 DecodeGear(file) ==
-  LET body == X73(SubSeq(file, 18, Len(file)))
+  \* (SubSeq materialises the lazily represented function once)
+  LET body == LET x == X73(SubSeq(file, 18, Len(file))) IN SubSeq(x, 1, Len(x))
   IN [headerOk |-> SubSeq(file, 1, 17) = GearHeader /\ Len(file) = 45221,
       current |-> body[2],
       sets |-> [k \in 1..100 |->
-                  LET rec == Rec(body, k)
+                  LET rec == GearRec(body, k)
                   IN [index |-> rec[1], name |-> NameOf(rec),
                       slots |-> [s \in 1..14 |-> SlotAt(rec, s)],
                       facewear |-> FromLE(rec, 448)]]]
